@@ -867,3 +867,15 @@ def witness(cfg, start, avoid, target=None):
         path.append('%s%s' % (show(n.e)[:70], (' [%s]' % lab) if lab else ''))
         cur = n
     return list(reversed(path))
+
+
+def c_resolve(cfg, node, e, depth=3):
+    """Replace a local variable by the value of its single reaching
+    definition (field read, other variable or call), repeatedly."""
+    while depth > 0 and e is not None and e.k == 'var':
+        defs = c_reaching(cfg, node, e.a[0])
+        if len(defs) != 1 or defs[0][1] is None or defs[0][0] is cfg.entry:
+            break
+        node, e = defs[0]
+        depth -= 1
+    return e
